@@ -107,6 +107,11 @@ impl<'a> ParseChain<ActionExprChain> for ActionExprChainBuilder<'a> {
             chain.append_member(action_expr);
 
             if let Some(next) = next {
+                // Wrappers left open are closed at the end of a step,
+                // so `<<<` can only match `>>>` of its own step.
+                if next.application_type == ApplicationType::Deferred {
+                    wrapper_count = 0;
+                }
                 wrapper_count += match next.move_type {
                     MoveType::Wrap => 1,
                     MoveType::Unwrap => -1,
